@@ -883,6 +883,9 @@ class Exec:
             return a.shape[0], (lambda k: basic_index_arr(a, [k])[0])
         if isinstance(itv, SeqVal):
             return z3.Length(itv.s), (lambda k: itv.elem.unpack(itv.s[to_int(k)]))
+        if isinstance(itv, lib.DictVal) and getattr(itv, 'keys_arr', None) is not None:
+            ka = itv.keys_arr
+            return ka.shape[0], (lambda k: ka.get(k))
         if isinstance(itv, (list, tuple, str, dict)):
             items = list(itv)
             return len(items), (lambda k: select_concrete(items, k, None))
@@ -1213,6 +1216,8 @@ class Exec:
                 return self.list_repeat(a, b, st)
             if isinstance(b, list) and (is_conc_num(a) or is_z3(a)):
                 return self.list_repeat(b, a, st)
+        if is_z3(a) and a.sort() == Val and is_z3(b) and b.sort() == Val:
+            return z3.Function('OP_' + type(op).__name__, Val, Val, Val)(a, b)     # operator of an opaque class
         fn = {ast.Add: s_add, ast.Sub: s_sub, ast.Mult: s_mul, ast.Div: s_truediv,
               ast.FloorDiv: s_floordiv, ast.Mod: s_mod}.get(type(op))
         if fn is None:
@@ -1389,6 +1394,10 @@ class Exec:
             return self.nd_getitem(base, idx, st, node)
         if isinstance(base, MaskedSel):
             raise Unsupported('indexing a masked selection')
+        if is_z3(base) and base.sort() == Val and not isinstance(idx, (SliceIx, tuple)):
+            zk = self.opaque_args([idx])
+            fn = z3.Function('ITEM', Val, *[a.sort() for a in zk], Val)
+            return fn(base, *zk)
         raise Unsupported('subscript of %r at line %s' % (base, getattr(node, 'lineno', '?')))
 
     def nd_getitem(self, base, idx, st, node):
